@@ -17,7 +17,7 @@ RULE = ('one run = one seeded interleaving (<= 30 events) on one engine of up to
         'upd = "retract(c(N)), assertz(c(s(N))), fail" under a line budget); half of the mutations are aimed at the record just visited or about '
         'to be visited by a suspended enumeration. A case = one event compared with the snapshot model + read-back of all predicates; '
         'non-trivial = the event is a step of an enumeration whose predicate was mutated since it started, or a mutation while an enumeration '
-        'of that predicate is suspended; distinct = hash of (event kind, enumeration kind, cursor position, snapshot length, what changed since start)')
+        'of that predicate is suspended; distinct = hash of (event kind, enumeration kind and pattern, cursor position, the snapshot it walks, the store as it is now)')
 ASSUMPTIONS = [
     'a goal starts at its first next() (generator bodies run lazily); the model snapshots then',
     'facts are ground, except in the 30% of runs where the arity-1 predicates may hold facts with fact-local variables (then no idioms are run); every enumeration has its own pattern variables',
@@ -328,7 +328,7 @@ def execute(plan):
         if e['visited_removed'] > before[1]:
             log.count('query_enum_visited_removed')
         if e['mutated']:
-            log.key((tag, e['kind'], min(e['pos'], 5), min(len(e['snap']), 5), e['skipped'] > before[0], e['visited_removed'] > before[1], want is None))
+            log.key((tag, e['kind'], tuple(e['pat']), e['pos'], tuple(r for _, r in e['snap'][:40]), tuple(m.store.rows(e['key'])[:40])))
         log.ev(tag, e['kind'], ok, None if got is None else tuple(TM.show(x) for x in got))
         if got != want:
             log.violation('enumeration-differs', {'enumeration': ('query ' if e['kind'] == 'q' else 'retract ') + show_goal(KEYS.index(e['key']), [TM.J(p) for p in e['pat']]),
@@ -354,7 +354,7 @@ def execute(plan):
                 under = [x for x in live if x['e']['key'] == key]
                 if under:
                     log.count('mutation_under_suspended_enum')
-                    log.key(('assert', front, len(under), tuple(min(x['e']['pos'], 4) for x in under)))
+                    log.key(('assert', front, tuple(row), tuple((x['e']['kind'], x['e']['pos'], len(x['e']['snap'])) for x in under), tuple(m.store.rows(key)[:40])))
                 term = yp.functor(key[0], [TM.build(yp, TM.T(t), {}) for t in row])
                 n = sum(1 for _ in yp.query('asserta' if front else 'assertz', [term]))
                 m.add(key, [TM.T(t) for t in row], front)
@@ -427,7 +427,7 @@ def execute(plan):
                     log.count('mutation_under_suspended_enum')
                     if aimed:
                         log.count('mutation_adjacent_to_cursor')
-                    log.key((kind, len(under), tuple(min(x['e']['pos'], 4) for x in under), aimed))
+                    log.key((kind, tuple(pat), tuple((x['e']['kind'], x['e']['pos'], len(x['e']['snap'])) for x in under), tuple(m.store.rows(key)[:40])))
                 vmap = {}
                 pargs = [TM.build(yp, t, vmap) for t in pat]
                 term = yp.functor(key[0], pargs)
@@ -464,7 +464,7 @@ def execute(plan):
                     log.violation('update-loop-does-not-terminate', {'idiom': op[1], 'line_budget': IDIOM_LINE_BUDGET})
                     break
                 log.ev('idiom', op[1], n)
-                log.key(('idiom', op[1], len(live)))
+                log.key(('idiom', op[1], len(live), tuple(m.store.rows(('p', 1))[:20]), tuple(m.store.rows(('c', 1))[:20])))
             elif kind == 'clear':
                 log.count('cases')
                 if live:
